@@ -10,7 +10,8 @@ dst = os.path.join(V, 'seeded', sid)
 os.makedirs(dst, exist_ok=True)
 for f in ('patch.diff', 'demo.py', 'demo.sh', 'notes.md'):
     if os.path.exists(os.path.join(src, f)):
-        shutil.copy(os.path.join(src, f), os.path.join(dst, f))
+        if os.path.abspath(src) != os.path.abspath(dst):
+            shutil.copy(os.path.join(src, f), os.path.join(dst, f))
 demo = os.path.join(dst, 'demo.py' if os.path.exists(os.path.join(dst, 'demo.py')) else 'demo.sh')
 runner = ['/venv/bin/python', demo] if demo.endswith('.py') else ['bash', demo]
 env = dict(os.environ, BSA_SRC='/repo/src')
